@@ -49,6 +49,11 @@ ISO_THOROUGH = [{'SRC': k, 'H': h, 'PRES': m} for k in (0, 1) for h in (0, 1, 5)
 
 SER_BOUNDS = {'soft limit': '0..INT_MAX', 'total request': '0..INT_MAX', 'delta per update': 'any int keeping the total in 0..INT_MAX',
               'mandatory requests': 'any non-negative int', 'threads': 'sequential (the aggregating path of update(); concurrent aggregation is outside)'}
+# ---- iso_dispatch (added by the C03 builder on the coordinator's request): the dispatcher's own isolation bookkeeping on the one-thread
+# dispatcher world of props/C03 (w_world.h, h_stubs.h); path-wise symbolic execution as in C03
+UNITS['isod'] = dict(wrapper='w_isod.cpp', mode='seq', cxxflags=CXX, exceptions=True, prune=True, inline_threshold=225,
+                     devirt=['ITask', 'IsoDelegate', 'reference_vertex', 'wait_context_vertex'], m1ptr=True, ptratomics=True,
+                     cut=['receive_or_steal_task', 'r15arena17get_critical_taskERj'])
 HARNESSES = [
   dict(name='serializer_hist', unit='mkt', harness='h_serializer.c', defines={'MODE': 0},
        scenarios=[{'PART': 0}, {'PART': 1, 'NOPS': 3}], scenarios_thorough=[{'PART': 0}, {'PART': 1, 'NOPS': 5}],
@@ -99,6 +104,16 @@ HARNESSES = [
        scenarios=SL2_QUICK, cbmc=['--unwind', '8', '--object-bits', '12'], timeout=3600,
        desc='one-thread arena task_arena(1, 1): 2 slots, the second one only for the mandatory (enqueue) worker: same oracle (at most max_concurrency + 1 threads, worker never in slot 0)',
        bounds={'threads': 2, 'slots': '1 reserved + 1 mandatory-worker slot', 'free_rounds': 2, 'forced_rounds': 2}),
+]
+HARNESSES += [
+  dict(name='iso_dispatch', unit='isod', harness='h_isod.c', defines={'MODE': 0}, scenarios=[{}],
+       cbmc=['--unwind', '12', '--object-bits', '12', '--paths', 'lifo'], timeout=600, native_cflags=['-fno-sanitize=null'],
+       desc='isolation bookkeeping of the real dispatcher (task_dispatcher::local_wait_for_all, get_critical_task, r1::spawn, dispatch_loop_guard, real isolate_within_arena) in a one-thread world: '
+            'a non-isolated waiter runs task A carrying tag X (as a stolen/mailed task), then a critical task C (tag Z, possibly 0) handed out in the bypass position (the bypass task P is re-spawned), '
+            'then the pool tasks; task B (tag Y) opens isolate_within_arena(V) and waits inside for F while a foreign task H (tag Q) sits on top of the pool. Oracle: every executed task has '
+            'ed.isolation == its own tag == the tag of the scope that spawned it, every spawned child carries its parent\'s tag (untagged critical task => untagged child), the isolated nested waiter '
+            'executes only tasks tagged V, ed.isolation is restored after the nested level and after isolate returns, every task runs exactly once. Symbolic: the five 64-bit tags, which bodies spawn',
+       bounds={'tasks': 10, 'threads': 1, 'tags': 'any 64-bit words (V != 0)', 'spawning bodies': 'every subset of {P, C, F, B}', 'critical stream': 'cut to its pop/pop_specific contract'}),
 ]
 MANIFEST = dict(
   level_text='Bounded symbolic execution / bounded model checking of the real arena and worker-budget code. (1) Worker budget: one real operation (threading_control_impl::adjust_demand or set_active_num_workers through the thread_request_serializer proxy, market::adjust_demand, arena::update_request and market::update_allotment) from an arbitrary reachable market state of 3 arenas over <=3 priority levels with symbolic demands <=7 (15 thorough) and any soft limit: allotments sum to min(total demand, limit) (exactly one mandatory worker at limit 0, to an arena with enqueued work), none exceeds its demand, higher priority is saturated first, split is proportional, and the number of threads requested from RML equals min(total, effective limit) for every int-valued total/limit/delta (inductive step over the serializer invariant). (2) Slots: for 2-3 threads entering and leaving one arena (workers via try_join/occupy_free_slot<true>/on_thread_leaving, externals via occupy_free_slot<false>) every interleaving within the round bound: slot indices pairwise distinct and below num_slots, workers never in reserved slots, my_limit covers occupied slots, reference word restored. (3) Isolation: arena_slot::get_task and steal_task on pools of 3 entries with symbolic 64-bit isolation tags only return tasks of the waiter\'s isolation scope and leave every skipped task in place.',
